@@ -71,3 +71,72 @@ package mysql
 //@   ensures decoder-value-used: called(DataTypeEncoder.Decode) && ret(DataTypeEncoder.Decode)[2] == nil && ret(DataTypeEncoder.Decode)[1] != nil ==> err == nil && sameslice(out, ret(DataTypeEncoder.Decode)[1])
 //@   ensures text-untouched: ret(base.ColumnInfoFromContext)[1] && !called(DataTypeEncoder.Decode) && !ret(ColumnInfo.IsBinaryFormat)[0] ==> sameslice(out, data) && err == nil
 //@   at call DataTypeEncoder.Decode : assert sameslice(arg[1], data)
+
+// ---- MySQL packets from the client: total on arbitrary bytes (C14) and well-formed after a rewrite (C12) ----
+//@ func (packet *Packet) readPacket(connection net.Conn) (data []byte, err error)
+//@   props C12 C14
+//@   safety
+//@   requires len(packet.header) == 4
+//@   ensures never-empty: err == nil ==> len(data) >= 1
+//@   ensures err != nil ==> data == nil
+
+//@ func (packet *Packet) ReadPacket(connection net.Conn) (err error)
+//@   props C12 C14
+//@   safety
+//@   requires len(packet.header) == 4
+//@   ensures err == nil ==> len(packet.data) >= 1
+
+//@ func ReadPacket(connection net.Conn) (p *Packet, err error)
+//@   props C12 C14
+//@   safety
+//@   ensures (err == nil) <==> (p != nil)
+//@   ensures err == nil ==> len(p.data) >= 1 && len(p.header) == 4
+
+//@ func NewPacket() (p *Packet)
+//@   props C12 C14
+//@   safety
+//@   ensures p != nil && len(p.header) == 4 && fresh(p)
+
+//@ func (packet *Packet) GetPacketPayloadLength() (n int)
+//@   props C12 C14
+//@   safety
+//@   requires len(packet.header) == 4
+//@   ensures n == int(packet.header[0]) + int(packet.header[1]) * 256 + int(packet.header[2]) * 65536 && 0 <= n && n < 16777216
+
+// The header's 3-byte length is the payload length (C12); it can only say so for payloads below 16 MiB.
+//@ func (packet *Packet) SetData(newData []byte)
+//@   props C12 C14
+//@   safety
+//@   requires len(packet.header) == 4
+//@   ensures sameslice(packet.data, newData)
+//@   ensures header-length-is-payload-length: int(packet.header[0]) + int(packet.header[1]) * 256 + int(packet.header[2]) * 65536 == len(newData)
+
+//@ func (packet *Packet) replaceQuery(newQuery string)
+//@   props C12 C14
+//@   safety
+//@   requires len(packet.header) == 4 && len(packet.data) >= 1
+//@   ensures command-kept: len(packet.data) == len(newQuery) + 1 && packet.data[0] == old(packet.data[0])
+//@   ensures query-replaced: forall(i, 0, len(newQuery), packet.data[1 + i] == newQuery[i])
+//@   ensures header-length-is-payload-length: int(packet.header[0]) + int(packet.header[1]) * 256 + int(packet.header[2]) * 65536 == len(packet.data)
+
+//@ func (packet *Packet) GetBindParameters(paramNum int) (values []base.BoundValue, err error)
+//@   props C12 C14
+//@   safety
+//@   requires 0 <= paramNum
+//@   loop 0 invariant 0 <= i && i <= paramNum && 0 <= pos && pos <= len(packet.data) && pos + 2 * (paramNum - i) <= len(packet.data)
+//@   loop 1 invariant 0 <= i && 0 <= pos && pos <= len(packet.data)
+//@   ensures err == nil ==> len(values) == paramNum
+//@   ensures err != nil ==> values == nil
+
+//@ func (handler *Handler) handleStatementExecute(ctx context.Context, packet *Packet) (id uint32, err error)
+//@   props C12 C14
+//@   safety
+//@   noinline GetBindParameters SetParameters
+//@   requires len(packet.header) == 4
+
+// A bound value parsed from a COM_STMT_EXECUTE payload consumes a non-negative number of bytes.
+//@ func NewMysqlBoundValue(data []byte, format base.BoundValueFormat, paramType base_mysql.Type) (v base.BoundValue, n int, err error)
+//@   props C12 C14
+//@   safety
+//@   ensures err == nil ==> 0 <= n && (n <= len(data) || n <= 8) && v != nil
+//@   ensures err != nil ==> v == nil && n == 0
